@@ -144,6 +144,24 @@ func NewEnvAt(dir, drive, db string, c Cfg) (*Env, error) {
 	return e, nil
 }
 
+// NewEnvSharing builds a second STFS instance over the same drive manager and index as e (as
+// a server process that hands a read-only and a writable view to different clients does).
+func NewEnvSharing(e *Env, readOnly bool) (*Env, error) {
+	c := e.Cfg
+	c.ReadOnly = readOnly
+	n := &Env{Cfg: c, Dir: e.Dir, Drive: e.Drive, DBPath: e.DBPath, TM: e.TM, MP: e.MP}
+	mt := mtio.MagneticTapeIO{}
+	mc := config.MetadataConfig{Metadata: n.MP}
+	pc := config.PipeConfig{RecordSize: c.RS, Compression: c.Compression, Encryption: c.Encryption, Signature: c.Signature}
+	bc := config.BackendConfig{GetWriter: n.TM.GetWriter, CloseWriter: n.TM.Close, GetReader: n.TM.GetReader, CloseReader: n.TM.Close, MagneticTapeIO: mt}
+	n.ReadOps = operations.NewOperations(bc, mc, pc, c.CryptoRead, func(*config.HeaderEvent) {})
+	n.WriteOp = operations.NewOperations(bc, mc, pc, c.Crypto, func(*config.HeaderEvent) {})
+	n.FS = fs.NewSTFS(n.ReadOps, n.WriteOp, mc, config.CompressionLevelFastestKey, func() (cache.WriteCache, func() error, error) {
+		return cache.NewCacheWrite(filepath.Join(e.Dir, "wc2"), config.WriteCacheTypeFile)
+	}, readOnly, c.WPIRP, func(*config.Header) {}, NopLogger{})
+	return n, nil
+}
+
 // Close releases the read-only observer connection (the instance itself has no Close).
 func (e *Env) Close() {
 	if e.ro != nil {
